@@ -438,9 +438,18 @@ fn task_reject(
                 return false;
             }
         }
+        TaskRuntimeState::RunningMultiNode(ws) => {
+            // The root node cannot start the task now, e.g. a task canceled
+            // a moment ago still holds the resources on the worker
+            if worker_id != ws[0] {
+                log::debug!("Rejection from invalid worker");
+                return false;
+            }
+            let ws = ws.clone();
+            reset_mn_task_workers(worker_map, &ws, task_id);
+        }
         TaskRuntimeState::Waiting { .. }
         | TaskRuntimeState::Running { .. }
-        | TaskRuntimeState::RunningMultiNode(_)
         | TaskRuntimeState::Finished => {
             unreachable!()
         }
